@@ -29,6 +29,7 @@ BASE_PS = [
     {'cx': True, 'sk': SK_DEFAULT},
     {'cx': True, 'sk': SK_DEFAULT, 'im': True, 'md': '$'},
     {'cx': False},
+    {'cx': True, 'sk': SK_DEFAULT, 'us': True},
 ]
 
 def random_ps(rng):
@@ -36,6 +37,8 @@ def random_ps(rng):
     if rng.random() < 0.8:
         d['cx'] = True
         d['sk'] = rng.choice([SK_DEFAULT, [], ['~'], ['`', '``', '~'], ['``', '`'], ['\n\n'], ['-', '--', '---', 'a-'], ['ab', 'a']])
+        if rng.random() < 0.25:
+            d['us'] = True
     else:
         d['cx'] = False
     if rng.random() < 0.4:
